@@ -487,9 +487,14 @@ def install_transport(e):
             c.setf(a["self"], "sock", None)
             c.setf(a["self"], "connected", False)
             c.ghost["closed_handles"] = c.fresh("int", "closed_handles")
-    e.add(Contract("ext:sock.close", assumed=True,
-                   havoc=lambda c, a, old, k: c.ghost.__setitem__("closed_handles", SV("int", z(c.ghost["closed_handles"]) + 1)),
-                   doc="sock.close(): the handle is released (closed_handles' = closed_handles + 1)"))
+    def sock_close(c, a, old, k):
+        h = a["self"]
+        if not h.attrs.get("closed"):
+            h.attrs["closed"] = True
+            if "closed_handles" in c.ghost:
+                c.ghost["closed_handles"] = SV("int", z(c.ghost["closed_handles"]) + 1)
+    e.add(Contract("ext:sock.close", assumed=True, havoc=sock_close,
+                   doc="sock.close(): the handle is released (closed_handles' = closed_handles + 1 the first time; closing again is a no-op)"))
     e.add(Contract(K + "WebSocket._recv", cases=[("any", _recv_case)],
                    requires=lambda c, a: z3.And(z(a["bufsize"], "int") >= 1, z(a["bufsize"], "int") <= MAXREQ),
                    ensures=lambda c, old, a, res: z3.And(chunk_post(c, old, res, z(a["bufsize"], "int")),
